@@ -18,6 +18,7 @@ class Ctx:
         self._paths = {}
         self._aborted = {}
         self._models = {}
+        self.blind = {}          # (cfg, callee, owner fn, closure defs) -> line
         self.steps = 0
         self.npaths = 0
 
@@ -68,6 +69,8 @@ class Ctx:
             self.npaths += len(ps)
             self._paths[k] = ps
             self._aborted[k] = it.aborted
+            for q, fp, clos, ln in it.blind:
+                self.blind.setdefault((cfg, q, fp, clos), ln)
         return self._paths[k]
 
     def aborted(self, cfg, fpath, tag="full"):
